@@ -34,13 +34,16 @@ ByteOf(S) == Bit(S, 0) + Bit(S, 1) + Bit(S, 2) + Bit(S, 3) + Bit(S, 4) + Bit(S, 
 (* default).  A later line for the same bit replaces the earlier one.      *)
 (***************************************************************************)
 LinesFor(defs, b) == {i \in 1..Len(defs) : defs[i].bit = b}
-LastLine(defs, b) == CHOOSE i \in LinesFor(defs, b) : \A j \in LinesFor(defs, b) : j <= i
-NameOf(defs, b) == IF LinesFor(defs, b) = {} THEN DigitName[b + 1] ELSE defs[LastLine(defs, b)].name
-OnOf(defs, b) == IF LinesFor(defs, b) = {} THEN FALSE ELSE defs[LastLine(defs, b)].on
-
-\* the resulting flag table, bit b at position b+1 (computed once per use; the operators below take
-\* the table so that reading a label does not rescan the definition lines for every character)
-TableOf(defs) == << >> \o [k \in 1..8 |-> [name |-> NameOf(defs, k - 1), on |-> OnOf(defs, k - 1)]]
+\* the resulting flag table, bit b at position b+1: [name, on].  The operators below take the table
+\* so that reading a label does not rescan the definition lines for every character.
+TableOf(defs) ==
+    << >> \o [k \in 1..8 |->
+        LET lines == LinesFor(defs, k - 1) IN
+        IF lines = {} THEN [name |-> DigitName[k], on |-> FALSE]
+        ELSE LET last == CHOOSE i \in lines : \A j \in lines : j <= i
+             IN [name |-> defs[last].name, on |-> defs[last].on]]
+NameOf(defs, b) == TableOf(defs)[b + 1].name
+OnOf(defs, b) == TableOf(defs)[b + 1].on
 
 TDefaultOn(tab) == {b \in Bits : tab[b + 1].on}
 DefaultOn(defs) == TDefaultOn(TableOf(defs))         \* "aux" flags
